@@ -86,8 +86,10 @@ impl Gates for NoGates {
 
 const LOCAL_NAMES: [&str; 6] = ["a", "b", "c", "x", "y", "z"];
 // the last four need escapes in the goml literal and in the emitted Go literal
-const STRS: [&str; 13] = [
+const STRS: [&str; 15] = [
     "", "a", "go", "ml", "x y", "Zz", "0", "héé", "a\nb", "q\"q", "b\\s", "\tT",
+    // C1 control characters (two bytes in UTF-8; a printer must not turn them into one-byte escapes), DEL
+    "n\u{85}l", "\u{9f}\u{7f}",
     // longer than any line width a pretty printer may wrap at
     "the quick brown fox jumps over the lazy dog and keeps running until the line is well past one hundred and twenty columns wide",
 ];
@@ -624,7 +626,19 @@ impl<'a, 'd> Gen<'a, 'd> {
                 let np = self.d.below(3);
                 let params: Vec<Ty> = (0..np).map(|_| self.sig_ty()).collect();
                 let ret = self.sig_ty();
-                let mname = if self.cfg.hostile_names && self.d.chance(120) {
+                // an inherent method may be called like a trait method the type implements:
+                // `x.m()` / `T::m(x)` mean the inherent one, `Tr::m(x)` and calls through a bound the trait's
+                let twins: Vec<String> = self
+                    .p
+                    .impls
+                    .iter()
+                    .filter(|i| i.trait_.is_some() && Self::same_head(&i.for_ty, &ty))
+                    .flat_map(|i| self.p.traits[i.trait_.unwrap()].methods.iter().map(|m| m.name.clone()))
+                    .collect();
+                let mname = if !twins.is_empty() && self.d.chance(110) && self.used_names.insert(format!("inherent:{a}:twin")) {
+                    self.label("method:inherent-named-like-trait-method");
+                    twins[self.d.below(twins.len())].clone()
+                } else if self.cfg.hostile_names && self.d.chance(120) {
                     const IM: [&str; 6] = ["to_string", "to_json", "len", "new", "show_to_string", "init"];
                     let n = IM[self.d.below(IM.len())];
                     if self.used_names.insert(format!("inherent:{a}:{n}")) { self.label("names:hostile-method"); n.to_string() } else { format!("im{a}x{m}") }
@@ -2147,6 +2161,19 @@ impl<'a, 'd> Gen<'a, 'd> {
         if self.cfg.ticks && self.d.chance(100) {
             cond = self.tick(&Ty::Bool, cond);
             self.label("while:cond-effect");
+            // `effect && flag` / `flag && effect` / `effect || flag`: the effectful operand is evaluated
+            // (or not) before every iteration exactly as the operator says, whatever the flag is
+            if self.d.chance(90) {
+                let flags: Vec<Expr> = self.paths(&Ty::Bool).into_iter().filter(|e| matches!(e, Expr::Var(_))).collect();
+                let flag = if !flags.is_empty() && self.d.bool() { flags[self.d.below(flags.len())].clone() } else { Expr::Bool(self.d.bool()) };
+                self.label("while:cond-andor");
+                cond = match self.d.below(3) {
+                    0 => Expr::Bin(BinOp::And, Box::new(cond), Box::new(flag)),
+                    1 => Expr::Bin(BinOp::And, Box::new(flag), Box::new(cond)),
+                    // (`cond || true` would never end)
+                    _ => Expr::Bin(BinOp::Or, Box::new(Expr::Bool(false)), Box::new(cond)),
+                };
+            }
         }
         let saved = self.scope.len();
         let mut body = vec![];
@@ -2590,7 +2617,18 @@ impl<'a, 'd> Gen<'a, 'd> {
                 self.label("fn:dyn-param");
                 continue;
             }
-            let t = if tparams > 0 && self.d.chance(60) {
+            let generic_adts: Vec<usize> = (0..self.p.adts.len()).filter(|a| self.p.adts[*a].tparams > 0).collect();
+            let t = if tparams > 0 && !generic_adts.is_empty() && self.d.chance(50) {
+                // a generic nominal type at the function's parameters in another order, repeated,
+                // or mixed with concrete types: `p: Pair[U, T]`, `Pair[T, T]`, `Pair[U, int32]`
+                let a = generic_adts[self.d.below(generic_adts.len())];
+                let n = self.p.adts[a].tparams;
+                let args: Vec<Ty> = (0..n)
+                    .map(|_| if self.d.chance(60) { Ty::i32() } else { Ty::Param(self.d.below(tparams as usize) as u32) })
+                    .collect();
+                self.label("generic-fn:param-of-generic-adt");
+                Ty::Adt(a, args)
+            } else if tparams > 0 && self.d.chance(60) {
                 // a type built from a parameter
                 let k = self.d.below(tparams as usize) as u32;
                 match self.d.below(3) {
